@@ -2,6 +2,9 @@ use crate::engine::{Ctx, PropInfo, Verdict};
 use serde_json::Value;
 
 pub mod c06;
+pub mod c13;
+pub mod c14;
+pub mod c15;
 pub mod c17;
 
 pub struct PropDef {
@@ -13,7 +16,7 @@ pub struct PropDef {
 }
 
 pub fn all() -> Vec<PropDef> {
-    vec![c06::def(), c17::def()]
+    vec![c06::def(), c13::def(), c14::def(), c15::def(), c15::def16(), c17::def()]
 }
 
 pub fn find(id: &str) -> Option<PropDef> {
